@@ -148,6 +148,28 @@ def run_hist(spec, res: Result):
                                   _slim(case), {"twin_bytes": bytes(tw[:L]).hex(), "fresh": repr(a2)[:300],
                                                 "after_twin": repr(b2_)[:300]})
                 break
+        # in-line predecessor: a NOP one byte below falls through to this address while OTHER bytes sit here (the
+        # instruction's twin); then the bytes change (host poke / overlay switch / the program's own store) and the case
+        # is executed in line. A fetch path that reads ahead and keeps what it read would execute the twin.
+        if "exc" not in fresh and n % 3 == 1 and case["addr"] > 0x100:
+            raw = bytes.fromhex(case["bytes"])
+            L = case["len"]
+            tw = bytearray(raw)
+            tw[L - 1] ^= 0x10
+            if L == 1:
+                tw[0] = 0x00 if raw[0] != 0x00 else 0x08
+            pred = dict(case, addr=case["addr"] - 1, bytes="00" + bytes(tw).hex())
+            pr = core.run(pred)
+            if "exc" not in pr and pr["PC"] == case["addr"]:
+                again = core.run(case)
+                res.monitor("py_inline_predecessor")
+                a3, b3 = arch_out(fresh), arch_out(again)
+                if not isinstance(b3[0], str) and not a3[4] and b3[4]:
+                    b3 = b3[:4] + (False,) + b3[5:]
+                if a3 != b3:
+                    res.violation({"clause": "stale_fetch_after_code_change", "core": "python", "op": f"{case['opc']:02X}"},
+                                  _slim(case), {"bytes_seen_by_predecessor": bytes(tw[:L]).hex(), "fresh": repr(a3)[:300],
+                                                "in_line": repr(b3)[:300]})
         temps = {i: r.choice(BVALS + [r.randrange(1 << 24)]) for i in range(14)} if n % 2 == 0 else None
         core.emu.regs.call_sub_level = r.randrange(0, 5)
         hist = core.run(case, temps)
